@@ -39,6 +39,9 @@ var $callDeferred = (deferred, jsErr, fromPanic) => {
        of one of the callers: the JavaScript stack then has to be unwound up to that caller's frame. */
     var movedToCallerFrame = false, unwindToRecoveringFrame = false;
     var panicking = localPanicValue !== undefined;
+    /* Set when the stack is being unwound through this call because a panic raised by one of its deferred
+       calls (which replaced the panic handled here) was recovered: the replaced panic is aborted with it. */
+    var abortedByReplacement = false;
 
     try {
         while (true) {
@@ -106,6 +109,9 @@ var $callDeferred = (deferred, jsErr, fromPanic) => {
     } catch (e) {
         // Deferred function threw a JavaScript exception or tries to unwind stack
         // to the point where a panic was handled.
+        if (e === null && !$curGoroutine.asleep) {
+            abortedByReplacement = true;
+        }
         if (fromPanic) {
             // Re-throw the exception to reach deferral execution call at the end
             // of the function.
@@ -117,7 +123,9 @@ var $callDeferred = (deferred, jsErr, fromPanic) => {
         $callDeferred(deferred, e, fromPanic);
     } finally {
         if (localPanicValue !== undefined) {
-            if ($panicStackDepth !== null) {
+            /* The panic stays pending (e.g. while the goroutine is suspended inside a deferred call) unless a
+               panic raised by one of its deferred calls replaced it: that one is already on the stack then. */
+            if ($panicStackDepth !== null && !abortedByReplacement && $curGoroutine.panicStack.length === 0) {
                 $curGoroutine.panicStack.push(localPanicValue);
             }
             $panicStackDepth = outerPanicStackDepth;
